@@ -1,4 +1,5 @@
 import PkVerif.Model.Receive
+import PkVerif.Props.C01
 import PkVerif.Gen.Facts
 /-!
 # C02 – only bytes matching their blobref, within the size cap, are ever accepted
@@ -396,6 +397,19 @@ theorem C02_any_store_holds_only_matching {content : Bytes → Bytes} {I : Impl}
     m k v = true ∧ v.length ≤ max := by
   rw [(C02_history_on_any_store R max m hcf evs I.init R.init_inv).2, R.init_abs] at h
   exact C02_history_from_empty max m evs k v h
+
+/-- **every history, every nesting of backends**: for every configuration tree the C01 refinement
+covers (any depth; namespace, proxycache, overlay, shard, replica, cond over memory leaves), every shard
+routing function and schema predicate, after any history of verified uploads and removals the store
+holds only blobs that hash to their refs and are within the cap -/
+theorem C02_all_nestings_hold_only_matching (content : Bytes → Bytes) (route isSchema : Bytes → Bool)
+    (c : Stores.Cfg) (hc : c.WF = true) (max : Nat) (m : Bytes → Bytes → Bool)
+    (hcf : ∀ k d, m k d = true → d = content k ∧ k ≠ []) (evs : List Ev) (k v : Bytes)
+    (h : SMap.get ((Stores.interpRefines content route isSchema c hc).abs
+      (evs.foldl (applyEvImpl (Stores.interp route isSchema c) max m) (Stores.interp route isSchema c).init)) k
+        = some v) :
+    m k v = true ∧ v.length ≤ max :=
+  C02_any_store_holds_only_matching (Stores.interpRefines content route isSchema c hc) max m hcf evs k v h
 
 /-- non-vacuity: a history with a corrupt, an oversized and a good upload and a removal ends with
 exactly the good blob -/
